@@ -388,13 +388,16 @@ def main():
     ap.add_argument("--keep", action="store_true")
     a = ap.parse_args()
     if a.build_only:
-        import glob
-        rc, out = coq_build(timeout=3300)
+        enabled = json.load(open(os.path.join(ROOT, "bin", "enabled.json")))
+        targets = []
+        for pid in enabled:
+            targets += ["theories/%s/Props.vo" % pid, "theories/%s/Corr.vo" % pid]
+        rc, out = coq_build(timeout=3300, targets=targets)
         ok = rc == 0
         if not ok:
             print("setup: coq build failed\n" + "\n".join(out.strip().split("\n")[-30:]))
-        for f in sorted(glob.glob(os.path.join(ROOT, "bin", "props", "C*.py"))):
-            P = importlib.import_module("props." + os.path.basename(f)[:-3])
+        for pid in enabled:
+            P = importlib.import_module("props." + pid)
             binp, err = harness_build(a.repo, P)
             if err:
                 print("setup:", P.ID, err)
